@@ -1061,6 +1061,9 @@ where
 
                 trace!("timed out on slow request; replying with 408 and closing connection");
 
+                // an expired timer left active would fire again on every later poll
+                this.head_timer.clear(line!());
+
                 let _ = self.as_mut().send_error_response(
                     Response::with_body(StatusCode::REQUEST_TIMEOUT, ()),
                     BoxBody::new(()),
@@ -1101,6 +1104,10 @@ where
                 // no tasks at hand
                 trace!("timer timed out; closing connection");
                 this.flags.insert(Flags::SHUTDOWN);
+
+                // an expired timer left active would fire again on every later poll and keep
+                // re-arming the shutdown timer below, so that it never expires
+                this.ka_timer.clear(line!());
 
                 if let Some(deadline) = this.config.client_disconnect_deadline() {
                     // start shutdown timeout if enabled
@@ -1334,6 +1341,9 @@ where
                     if inner.flags.contains(Flags::WRITE_DISCONNECT) {
                         Poll::Ready(Ok(()))
                     } else {
+                        // whatever started the shutdown, it is bounded by the disconnect timeout
+                        inner.as_mut().ensure_linger_timer(cx);
+
                         // flush buffer and wait on blocked
                         ready!(inner.as_mut().poll_flush(cx))?;
                         Pin::new(inner.as_mut().project().io.as_mut().unwrap())
